@@ -288,7 +288,7 @@ class Driver:
             ty = rt.get("type", {})
             if not exists_const:
                 continue
-            if "integer" in ty and ty["integer"].get("modulus") == "infinity" and is_static_expr(rt):
+            if "integer" in ty and ty["integer"].get("modulus") == "infinity":
                 v = int(ty["integer"]["modular_value"])
                 self.static.append('static_assert(%s::%s().Read() == %s, "%s");' % (
                     view, cpp, cpp_int_literal(v), nm))
@@ -296,11 +296,11 @@ class Driver:
                 if nm in ("$size_in_bytes", "$size_in_bits"):
                     self.static.append('static_assert(%s::SizeIn%s() == %s, "size");' % (
                         view, "Bytes" if nm.endswith("bytes") else "Bits", cpp_int_literal(v)))
-            elif "boolean" in ty and "value" in ty["boolean"] and is_static_expr(rt):
+            elif "boolean" in ty and "value" in ty["boolean"]:
                 self.static.append('static_assert(%s::%s().Read() == %s, "%s");' % (
                     view, cpp, "true" if ty["boolean"]["value"] else "false", nm))
                 self.stats["constants"] += 1
-            elif "enumeration" in ty and "value" in ty["enumeration"] and is_static_expr(rt):
+            elif "enumeration" in ty and "value" in ty["enumeration"]:
                 found = self.mod.find(ty["enumeration"]["name"])
                 if found:
                     en = self.mod.cpp_name(*found)
@@ -393,6 +393,15 @@ def fixed_size(t):
         if a["name"]["text"] == "fixed_size_in_bits" and "expression" in a.get("value", {}):
             return cppgen.const_int(a["value"]["expression"])
     return None
+
+
+def is_const_type(e):
+    """`ir_util.is_constant_type`: the expression's type is inhabited by a single value — then
+    (and only then) `_render_expression(...).is_constant` holds and the back end emits the
+    constexpr form of a virtual field."""
+    ty = e.get("type", {})
+    return ("integer" in ty and ty["integer"].get("modulus") == "infinity") or \
+        ("boolean" in ty and "value" in ty["boolean"]) or ("enumeration" in ty and "value" in ty["enumeration"])
 
 
 def is_static_expr(e):
